@@ -1,6 +1,5 @@
 use crate::compat::index_rebuilding::index_rebuilder::IndexRebuilder;
 use crate::state::system::PartitionState;
-use crate::streaming::batching::batch_accumulator::BatchAccumulator;
 use crate::streaming::partitions::partition::{ConsumerOffset, Partition};
 use crate::streaming::partitions::COMPONENT;
 use crate::streaming::persistence::persister::PersisterKind;
@@ -133,13 +132,6 @@ impl PartitionStorage for FilePartitionStorage {
             segment.load_from_disk().await.with_error_context(|error| {
                 format!("{COMPONENT} (error: {error}) - failed to load segment: {segment}",)
             })?;
-            let capacity = partition.config.partition.messages_required_to_save;
-            if !segment.is_closed {
-                segment.unsaved_messages = Some(BatchAccumulator::new(
-                    segment.current_offset,
-                    capacity as usize,
-                ))
-            }
 
             // If the first segment has at least a single message, we should increment the offset.
             if !partition.should_increment_offset {
